@@ -8,7 +8,14 @@ BOUNDS = {
     'ZeroRadius': 'bit exact: every float32 radius pair with a zero/NaN radius, every endpoint, viewBox, rectangle size up to 65536, pen; absolute form',
     'ZeroRadiusRel': 'exact-real reading (rounding not modelled): relative form, moderate magnitudes, 48x20 rectangle',
     'RelIsAbsFromPen': 'bit exact, relational: RelArcTo = AbsArcTo at the endpoint measured from the pen (degenerate branch executed; the general branch is the same delegation)',
+    'General': 'exact-real reading, sin/cos/acos uninterpreted (range contracts only): non-degenerate arcs with start, end in [-64,64]^2 (distinct), radii in [1/4,64], '
+               'x-axis rotation 0 or 1/8 turn (concrete), all four flag combinations, viewBox (-32,-16)-(32,48) on a 48x20 raster (non-uniform, off-origin); '
+               'claims: at most 4 segments, one CubeTo per segment, every control/end point equals (1e-3 px + 1e-4 rel) the point the SVG centre parameterisation '
+               '(ref.NewArc: F.6.5/F.6.6 of the SVG implementation notes) prescribes for the equal subdivision, last end point = mapped arc end point. '
+               'Assumed, not derived (uninterpreted trigonometry cannot): the end angle Theta1+Delta of the reference parameterises the end point (F.6.5 theorem), cos^2+sin^2=1 for the rotation; '
+               'float->int of the segment count by case split -1..8. Violated obligations in this reading are rarely modelled by the solvers (unknown): per case 6 witnesses of the input '
+               'assumptions (solver models in random cells) are run through the native harness as oracle; a failure there is reported as a violation, passing witnesses claim nothing.',
 }
-OUTSIDE = ('non-degenerate arcs: number of cubic segments, end point of the emitted curve, points on the ellipse, sweep direction and large-arc extent are NOT decided '
-           '(they need trigonometric identities over uninterpreted sin/cos/acos; the bounded loop over a symbolic segment count did not terminate within the caps). '
-           'The concrete arcs of testdata/arcs.ivg are compared bit for bit with the native code in the translator self-test only.')
+OUTSIDE = ('non-degenerate arcs: symbolic x-axis rotation (non-linear real queries did not terminate), other viewBox maps, rounding (exact reals), that the sweep has the extent real trigonometry gives it '
+           '(large-arc: |Delta| >= pi) - the flags are checked through the reference construction only; arcs with no segment at all (Delta = 0) need acos = 0 and are excluded by real trigonometry only; '
+           'chains of arcs (state carried from one arc to the next) are not exercised')
